@@ -9,6 +9,10 @@
 
 #include <pistache/async.h>
 
+#include <cerrno>
+#include <dlfcn.h>
+#include <pthread.h>
+
 using namespace verif;
 using namespace Pistache;
 
@@ -41,31 +45,16 @@ namespace
         if (Sched* s = Sched::active())
             s->yield(tag);
     }
-    void lock_hook(std::mutex& m, const char* tag)
+    // The lock hook only marks a place where the baton may pass.  Who may take a lock is decided by
+    // the lock itself: pthread_mutex_lock is interposed below, so a lock the code under test really
+    // takes waits cooperatively, and a lock it no longer takes excludes nobody (a hook line that
+    // outlives its lock must not stand in for it).
+    void lock_hook(std::mutex&, const char* tag)
     {
         Sched* s = Sched::active();
         if (!s || Sched::my_id() < 0)
             return;
         s->yield(tag);
-        for (;;)
-        {
-            if (m.try_lock())
-            {
-                m.unlock();
-                return; // nobody else runs before the real lock() that follows
-            }
-            std::mutex* mp = &m;
-            s->block_until(
-                [mp] {
-                    if (mp->try_lock())
-                    {
-                        mp->unlock();
-                        return true;
-                    }
-                    return false;
-                },
-                tag);
-        }
     }
 
     struct Counter
@@ -207,6 +196,7 @@ namespace
             return int(o.conts.size() - 1);
         };
         Dfr<void> dp;
+        Dfr<int> dq;
         Async::Promise<void> P([&](Async::Deferred<void> d) { *dp.d = std::move(d); });
         std::vector<Async::Promise<int>> keep;
         keep.reserve(8);
@@ -218,6 +208,35 @@ namespace
                 dp.d->resolve();
         };
         std::vector<Sched::Body> bodies;
+        if (scen == 4)
+        {
+            // as S5 of run_int with a void parent: f returns a promise Q settled by a third thread; P always
+            // fulfils, the outcome flag decides how Q is settled
+            int f = add("f", true), g = add("g", !reject);
+            o.expect_val[size_t(g)] = 9;
+            Counter *Cf = &o.conts[size_t(f)], *Cg = &o.conts[size_t(g)];
+            auto qd     = dq.d;
+            keep.push_back(P.then(
+                [Cf, qd]() {
+                    ++Cf->ful;
+                    return Async::Promise<int>([qd](Async::Deferred<int> d) { *qd = std::move(d); });
+                },
+                Async::Throw));
+            bodies.push_back([&] { dp.d->resolve(); });
+            bodies.push_back([&, Cg] {
+                keep.push_back(keep[0].then([Cg](int v) { ++Cg->ful; Cg->val = v; return v; }, [Cg](std::exception_ptr e) { ++Cg->rej; Cg->exc = exc_id(e); }));
+            });
+            bodies.push_back([&, qd, Cf] {
+                Sched::active()->block_until([Cf] { return Cf->ful > 0; }, "t3:wait-for-Q");
+                if (reject)
+                    qd->reject(TestExc { 7 });
+                else
+                    qd->resolve(9);
+            });
+            Sched sched;
+            o.r = sched.run(bodies, std::move(chooser));
+            return o;
+        }
         bodies.push_back(settle);
         if (scen == 0 || scen == 1)
         {
@@ -257,7 +276,7 @@ namespace
 
     Outcome run_scenario(int scen, bool reject, bool isvoid, Sched::Chooser chooser)
     {
-        Outcome o = (isvoid && scen < 4) ? run_void(scen, reject, std::move(chooser)) : run_int(scen, reject, std::move(chooser));
+        Outcome o = isvoid ? run_void(scen, reject, std::move(chooser)) : run_int(scen, reject, std::move(chooser));
         // non-trivial: a context switch strictly inside the attacher's window (state test .. append)
         // or inside the settler's store-and-walk
         const auto& t = o.r.trace;
@@ -334,6 +353,33 @@ namespace
     }
 }
 
+// std::mutex::lock() of a thread under the scheduler: never blocks in the kernel while the holder is
+// parked at a hook; waits in the scheduler until the mutex is free, then takes it for real.
+extern "C" int pthread_mutex_lock(pthread_mutex_t* m)
+{
+    using Fn       = int (*)(pthread_mutex_t*);
+    static Fn real = reinterpret_cast<Fn>(dlsym(RTLD_NEXT, "pthread_mutex_lock"));
+    Sched* s       = Sched::active();
+    if (!s || Sched::my_id() < 0 || s->is_own_mutex(m))
+        return real(m);
+    for (;;)
+    {
+        int r = pthread_mutex_trylock(m);
+        if (r != EBUSY)
+            return r;
+        s->block_until(
+            [m] {
+                if (pthread_mutex_trylock(m) == 0)
+                {
+                    pthread_mutex_unlock(m);
+                    return true;
+                }
+                return false;
+            },
+            "mutex:wait");
+    }
+}
+
 namespace verif
 {
     HarnessInfo harness_info() { return { "C12", 200 }; }
@@ -348,7 +394,7 @@ namespace verif
         Choices c(data, size);
         int scen     = int(c.pick(NSCEN));
         unsigned fl  = c.pick(4);
-        bool reject = fl & 1, isvoid = (fl & 2) && scen < 4;
+        bool reject = fl & 1, isvoid = (fl & 2) != 0;
         Choices* cp  = &c;
         Outcome o    = run_scenario(scen, reject, isvoid, [cp](unsigned n) { return cp->pick(n); });
         rep.label(std::string("S") + std::to_string(scen + 1) + (reject ? "/reject" : "/fulfil") + (isvoid ? "/void" : "/int"));
@@ -364,7 +410,7 @@ namespace verif
         if (argc < 4)
             return -1;
         int scen    = atoi(argv[0]);
-        bool reject = atoi(argv[1]) != 0, isvoid = atoi(argv[2]) != 0 && scen < 4;
+        bool reject = atoi(argv[1]) != 0, isvoid = atoi(argv[2]) != 0;
         unsigned long max_sched = strtoul(argv[3], nullptr, 10);
         DfsEnumerator e;
         for (int i = 4; i < argc; ++i)
